@@ -811,7 +811,7 @@ func exec(line string) hx.Result {
 func main() {
 	hx.Main(hx.Prop{
 		ID:   "C44",
-		Rule: "see gen.go",
+		Rule: "55% helper level: 2-3 addresses out of 8 (neighbours sharing 19 bytes, 00..00, ff..ff whose range limit is ST_DESTROYED) with 0-10 entries each spread over store / block overlay / transaction cache (overwrites and tombstones across layers, bare-prefix key, suffixes sharing prefixes, raw neighbours 04ff/05/06), commits in between, then 1-3 rounds of the real MigrateContractStorage / CleanContractStorage / CleanContractStorageData / DeleteContract / Set/UnsetContractDestroyed at heights around the activation height of the line's network, observations, commit/reset/block commit, further writes. 45% transaction level: 2-5 contracts COMPILED from random straight-line programs (Storage.Put/Delete, Contract.Destroy/Migrate/Create, Create+GetScript, APPCALL; 60% of the last third wasm modules run by wagon), deployed by the real HandleDeployTransaction or PutContract, storage pre-populated in all layers, then 2-7 invoke / deploy transactions through the real engines. Non-trivial = the line executes at least one migrate/clean/transaction; kinds = layers holding the migrated/cleaned entries, bare-prefix key, self-migration, transaction outcomes per VM, redeploy of a destroyed address, contract gone within a transaction",
 		Gen:  gen,
 		Exec: exec,
 		Init: func() {
